@@ -801,3 +801,53 @@ def check_page_suffix(ctx):
     if not bad:
         ctx.holds('PAGE-SUFFIX', RST, f'{n} methods: the page extension is '
                   f'appended, never substituted', nontrivial=False)
+
+
+# ------------------------------------------------------------ NO-REMOVE ---
+
+REMOVERS = {'rmtree', 'remove', 'unlink', 'rmdir', 'removedirs', 'rename',
+            'renames', 'replace', 'move', 'truncate'}
+
+
+def check_no_remove(ctx):
+    """The writer only ADDS to the report directory: pages, the service
+    directories (figures, .static, .templates) and the plots share one name
+    space (<report>/<title> is the directory of a first-level section and
+    <report>/figures the directory of the plots).  A clean-up in the writer
+    (rmtree of a "stale" section directory, unlink of an old page) therefore
+    removes, for some title, what the same write() created a moment before:
+    referenced figures that do not exist, pages that disappear."""
+    program = ctx.program
+    mod = program.module(RST)
+    program.consulted.add(mod.relpath)
+    n_fun = 0
+    bad = 0
+    for func in mod.functions.values():
+        n_fun += 1
+        for call in calls_in(func.node):
+            cname = call_name(call)
+            if cname not in REMOVERS:
+                continue
+            recv = receiver(call)
+            rtxt = dotted(recv) if recv is not None else ''
+            if cname == 'replace' and rtxt not in ('os',) and not (
+                    'path' in (rtxt or '').lower()):
+                continue        # str.replace
+            if cname in ('remove',) and rtxt not in ('os',):
+                continue        # list.remove
+            if cname == 'move' and rtxt != 'shutil':
+                continue
+            bad += 1
+            ctx.violated('NO-REMOVE', func,
+                         f'{func.name}: {txt(call)[:60]} removes / moves '
+                         f'entries of the report directory',
+                         at=func.where(call),
+                         detail='section directories, service directories '
+                                'and plots share the name space of the '
+                                'report root: for some title the clean-up '
+                                'removes what this write() created')
+    ctx.floor('NO-REMOVE', n_fun, 5, 'functions of rst.py')
+    if not bad:
+        ctx.holds('NO-REMOVE', RST, f'{n_fun} functions of rst.py: nothing '
+                  f'is removed or moved in the report directory',
+                  nontrivial=False)
